@@ -1,6 +1,20 @@
+"""Validate MANIFEST.json and every evidence file against the schemas, and that each evidence level equals the
+level category claimed in the manifest.  Run with python3-vt (has jsonschema)."""
 import json, glob, sys, jsonschema
-jsonschema.validate(json.load(open('MANIFEST.json')), json.load(open('/root/.vp/MANIFEST.schema.json')))
+man = json.load(open('MANIFEST.json'))
+jsonschema.validate(man, json.load(open('/root/.vp/MANIFEST.schema.json')))
 sch = json.load(open('/root/.vp/EVIDENCE.schema.json'))
+claimed = {c['property_id']: c['level_claimed']['category'] for c in man['checks']}
+bad = 0
 for f in sorted(glob.glob('evidence/*.json')):
-    jsonschema.validate(json.load(open(f)), sch); print('ok', f)
-print('manifest ok')
+    e = json.load(open(f))
+    jsonschema.validate(e, sch)
+    if claimed.get(e['property_id']) != e['level']:
+        print('LEVEL MISMATCH', f, e['level'], 'manifest:', claimed.get(e['property_id'])); bad += 1
+    else:
+        print('ok', f)
+missing = sorted(set(claimed) - {json.load(open(f))['property_id'] for f in glob.glob('evidence/*.json')})
+if missing:
+    print('NO EVIDENCE FOR', missing); bad += 1
+print('manifest ok' if not bad else 'PROBLEMS')
+sys.exit(1 if bad else 0)
